@@ -60,8 +60,13 @@ def _write_grid_vars(nc: Dataset, sc, dims_only: bool = False) -> None:
         var[...] = data
         return var
 
-    put("h", truth.bathymetry(sc), ("eta_rho", "xi_rho"))
+    put("h", truth.bathymetry(sc), ("eta_rho", "xi_rho"), sc["grid"].get("h_store", "f8"))
     put("mask_rho", truth.mask_rho(sc).astype(float), ("eta_rho", "xi_rho"))
+    if sc["grid"].get("staggered_masks"):
+        # ROMS grid and history files carry the masks of the staggered points as well
+        mu, mv = truth.face_masks(sc)
+        put("mask_u", mu.astype(float), ("eta_u", "xi_u"))
+        put("mask_v", mv.astype(float), ("eta_v", "xi_v"))
     put("pm", 1.0 / dx, ("eta_rho", "xi_rho"))
     put("pn", 1.0 / dy, ("eta_rho", "xi_rho"))
     put("lon_rho", lon, ("eta_rho", "xi_rho"))
@@ -190,6 +195,8 @@ def release_columns(sc) -> list[str]:
     cols = ["mult"] if rel.get("mult_column", True) else []
     cols.append("release_time")
     cols += ["lon", "lat"] if rel.get("use_lonlat") else ["X", "Y"]
+    if rel.get("both_positions") and not rel.get("use_lonlat"):
+        cols += ["lon", "lat"]     # "for information": if both are present the grid position is used (release.rst)
     if not rel.get("no_z"):     # a release file need not give a depth (doc/source/release.rst): the depth is then NaN
         cols.append("Z")
     cols += [c["name"] for c in rel.get("extra", [])]
@@ -214,7 +221,8 @@ def _fmt_time(t: np.datetime64, style: str = "T") -> str:
 
 def release_row_time(sc, row) -> np.datetime64:
     """release time of a row; row['step'] counts model steps in simulation direction"""
-    return truth.t_start(sc) + truth.sgn(sc) * int(row["step"]) * truth.dt_s(sc)
+    # 'off_s': seconds off the step grid (used by start-up faults only)
+    return truth.t_start(sc) + truth.sgn(sc) * (int(row["step"]) * truth.dt_s(sc) + int(row.get("off_s", 0)))
 
 
 def write_release_file(path: Path, sc) -> None:
@@ -430,6 +438,9 @@ def build_config(sc, d: Path, shims: bool = True, warm_file: str | None = None,
     for name, nctype in out["ivars"].items():
         inst[name] = {"encoding": {"datatype": nctype},
                       "attributes": {"long_name": f"particle {name}"}}
+        if name in out.get("packed", {}):
+            # stored packed: integer type with a scale factor (examples/killer/dense.yaml packs X that way)
+            inst[name]["attributes"]["scale_factor"] = float(out["packed"][name])
     output["instance_variables"] = inst
     part = {}
     for name, nctype in out.get("pvars", {}).items():
